@@ -11,6 +11,10 @@ package queue
 //@   ensures err != nil && annAgrees(err) ==> coherent(result.Code, result.EnhancedCode) && (result.Code/100 == 4 || result.Code/100 == 5)
 //@   ensures err != nil && annAgrees(err) && !isType(err, "*gosmtp.SMTPError") ==> (result.Code/100 == 4) == tempOrUnspec(err)
 //@   ensures err != nil && !isType(err, "*gosmtp.SMTPError") ==> result.EnhancedCode[0] != 0
+// C18 ("with their last status codes"): the stored error keeps the code and the enhanced code the failure was annotated with
+// (an annotation that leaves the enhanced code unset keeps the default of the class).
+//@   ensures err != nil && !isType(err, "*gosmtp.SMTPError") && annotated(err) ==> result.Code == annCode(err)
+//@   ensures err != nil && !isType(err, "*gosmtp.SMTPError") && annHasEC(err) && !(annEC(err)[0] == 0 && annEC(err)[1] == 0 && annEC(err)[2] == 0) ==> result.EnhancedCode[0] == annEC(err)[0] && result.EnhancedCode[1] == annEC(err)[1] && result.EnhancedCode[2] == annEC(err)[2]
 
 // ---- C01: one delivery attempt ----
 //@ import module "github.com/foxcpp/maddy/framework/module"
@@ -54,7 +58,7 @@ package queue
 //@   splitreturns
 //@   prop C01
 //@   requires q != nil && meta != nil && meta.MsgMeta != nil && q.Target != nil
-//@   modifies gOpen, gAcc, gBodyErr, gCommitted
+//@   modifies gOpen, gAcc, gBodyErr, gCommitted, gCommitFailed
 //@   ensures gOpen == old(gOpen)
 //@   ensures errsWF(result.Errs)
 //@   ensures forall k int :: 0 <= k && k < len(old(meta.To)) && !has(result.Errs, old(meta.To)[k]) ==> gAcc[refOf(delivery)][old(meta.To)[k]] && gBodyErr[refOf(delivery)] == nil && gCommitted[refOf(delivery)]
@@ -100,11 +104,42 @@ package queue
 //@   requires q != nil && meta != nil && meta.MsgMeta != nil
 //@   modifies gMetaWrites
 //@   trusted-ensures gMetaWrites == old(gMetaWrites) + 1
+// ---- C18: failure reports ----
+//@ import dsn "github.com/foxcpp/maddy/internal/dsn"
+// origRcpt: the address the sender used for an effective recipient (OriginalRcpts entry when present and non-empty).
+//@ pure func origRcpt(m map[string]string, r string) string = (has(m, r) && m[r] != "") ? m[r] : r
+// GenerateDSN is under contract in package dsn (what it writes); here: what emitDSN asks it to write.
+// emitDSN: no report without a bounce pipeline or for a message whose original sender is the null address; the
+// report is started with the null return path and metadata whose OriginalFrom is empty (so a failed report never
+// produces another report), addressed to the sender of the failed message; it carries one recipient entry per failed
+// recipient, in order, under the address the sender used, with the stored last error and its enhanced code, and the
+// header of the original message; the report delivery is closed exactly once (commit, or abort after a failed stage).
 //@ func (*Queue).emitDSN
+//@   splitreturns
 //@   prop C18
+//@   nopanic
 //@   requires q != nil && meta != nil && meta.MsgMeta != nil && meta.RcptErrs != nil
-//@   modifies gDSNCalls, gDSNRcpts, gOpen, gAcc, gBodyErr, gCommitted
+//@   requires forall k int :: 0 <= k && k < len(failedRcpts) ==> has(meta.RcptErrs, failedRcpts[k]) && meta.RcptErrs[failedRcpts[k]] != nil
+//@   modifies gDSNCalls, gDSNRcpts, gOpen, gAcc, gBodyErr, gCommitted, gCommitFailed, gRcptFields, gHdrPart, gHdrParts
 //@   trusted-ensures gDSNCalls == old(gDSNCalls) + 1 && gDSNRcpts == failedRcpts
+//@   ensures gOpen == old(gOpen)
+//@   assert-call dsn.GenerateDSN : q.dsnPipeline != nil && meta.MsgMeta.OriginalFrom != ""
+//@   assert-call dsn.GenerateDSN : $failedHeader == header && $envelope.To == meta.MsgMeta.OriginalFrom && $utf8 == meta.MsgMeta.SMTPOpts.UTF8
+//@   assert-call dsn.GenerateDSN : len($rcptsInfo) == len(failedRcpts)
+//@   assert-call dsn.GenerateDSN : forall k int :: 0 <= k && k < len(failedRcpts) ==> $rcptsInfo[k].FinalRecipient == origRcpt(meta.MsgMeta.OriginalRcpts, failedRcpts[k]) && $rcptsInfo[k].Action == dsn.ActionFailed
+//@   assert-call dsn.GenerateDSN : forall k int :: 0 <= k && k < len(failedRcpts) ==> $rcptsInfo[k].DiagnosticCode == iface(meta.RcptErrs[failedRcpts[k]]) && $rcptsInfo[k].Status == meta.RcptErrs[failedRcpts[k]].EnhancedCode
+//@   assert-call (module.DeliveryTarget).Start : $t == q.dsnPipeline && $mailFrom == "" && $msgMeta != nil && $msgMeta.OriginalFrom == "" && meta.MsgMeta.OriginalFrom != ""
+//@   assert-call (module.Delivery).AddRcpt : $d == dsnDelivery && $rcptTo == meta.From
+//@   assert-call (module.Delivery).Body : $d == dsnDelivery && $header == dsnHeader
+//@   loop 0 invariant len(rcptInfo) == rangeindex + 1 && meta.MsgMeta == old(meta.MsgMeta) && meta.RcptErrs == old(meta.RcptErrs)
+//@   loop 0 invariant forall k int :: 0 <= k && k <= rangeindex ==> rcptInfo[k].FinalRecipient == origRcpt(meta.MsgMeta.OriginalRcpts, failedRcpts[k]) && rcptInfo[k].Action == dsn.ActionFailed
+//@   loop 0 invariant forall k int :: 0 <= k && k <= rangeindex ==> rcptInfo[k].DiagnosticCode == iface(meta.RcptErrs[failedRcpts[k]]) && rcptInfo[k].Status == meta.RcptErrs[failedRcpts[k]].EnhancedCode
+//@ func (*Queue).emitDSN$1
+//@   prop C18
+//@   requires err != nil ==> gOpen[refOf(dsnDelivery)] || gCommitFailed[refOf(dsnDelivery)]
+//@   modifies gOpen, gCommitFailed
+//@   ensures err != nil ==> gOpen == store(old(gOpen), refOf(dsnDelivery), false)
+//@   ensures err == nil ==> gOpen == old(gOpen)
 
 // A recipient is retried iff the attempt recorded an error for it that is temporary or unclassified and the
 // attempt bound is not reached; it fails terminally iff an error was recorded and it is not retried.
@@ -126,7 +161,7 @@ package queue
 //@   requires forall j int :: 0 <= j && j < len(meta.To) ==> 0 <= tc(meta.TriesCount, meta.To[j]) && tc(meta.TriesCount, meta.To[j]) < 4611686018427387904
 //@   modifies *
 //@   assert-call (*Queue).emitDSN : len(failedRcpts) > 0 && $failedRcpts == failedRcpts && gDSNCalls == old(gDSNCalls) && $meta == meta
-//@   assert-call (*Queue).emitDSN : forall k int, r string :: 0 <= k && k < len(failedRcpts) && r == failedRcpts[k] ==> isFail(partialErr.Errs, r, old(tc(meta.TriesCount, r)), q.maxTries) && meta.RcptErrs[r] != nil
+//@   assert-call (*Queue).emitDSN : forall k int, r string :: 0 <= k && k < len(failedRcpts) && r == failedRcpts[k] ==> isFail(partialErr.Errs, r, old(tc(meta.TriesCount, r)), q.maxTries) && has(meta.RcptErrs, r) && meta.RcptErrs[r] != nil
 //@   assert-call (*Queue).emitDSN : forall j int :: 0 <= j && j < len(old(meta.To)) && isFail(partialErr.Errs, old(meta.To)[j], old(tc(meta.TriesCount, meta.To[j])), q.maxTries) ==> (exists k int :: 0 <= k && k < len(failedRcpts) && failedRcpts[k] == old(meta.To)[j])
 //@   assert-call (*Queue).removeFromDisk : len(newRcpts) == 0 && gRemoved == old(gRemoved) && gScheduled == old(gScheduled)
 //@   assert-call (*Queue).updateMetadataOnDisk : $meta == meta && len(newRcpts) > 0 && meta.To == newRcpts && gMetaWrites == old(gMetaWrites)
@@ -144,7 +179,7 @@ package queue
 //@   loop 0 invariant forall k int, r string :: 0 <= k && k < len(newRcpts) && r == newRcpts[k] ==> isRetry(partialErr.Errs, r, old(tc(meta.TriesCount, r)), q.maxTries)
 //@   loop 0 invariant forall k int, r string :: 0 <= k && k < len(newRcpts) && r == newRcpts[k] ==> tc(meta.TriesCount, r) == old(tc(meta.TriesCount, r)) + 1
 //@   loop 0 invariant forall j int :: 0 <= j && j <= rangeindex && isRetry(partialErr.Errs, meta.To[j], old(tc(meta.TriesCount, meta.To[j])), q.maxTries) ==> (exists k int :: 0 <= k && k < len(newRcpts) && newRcpts[k] == meta.To[j])
-//@   loop 0 invariant forall k int, r string :: 0 <= k && k < len(failedRcpts) && r == failedRcpts[k] ==> isFail(partialErr.Errs, r, old(tc(meta.TriesCount, r)), q.maxTries) && meta.RcptErrs[r] != nil
+//@   loop 0 invariant forall k int, r string :: 0 <= k && k < len(failedRcpts) && r == failedRcpts[k] ==> isFail(partialErr.Errs, r, old(tc(meta.TriesCount, r)), q.maxTries) && has(meta.RcptErrs, r) && meta.RcptErrs[r] != nil
 //@   loop 0 invariant forall j int :: 0 <= j && j <= rangeindex && isFail(partialErr.Errs, meta.To[j], old(tc(meta.TriesCount, meta.To[j])), q.maxTries) ==> (exists k int :: 0 <= k && k < len(failedRcpts) && failedRcpts[k] == meta.To[j])
 //@   loop 0 invariant forall j int :: rangeindex < j && j < len(meta.To) ==> tc(meta.TriesCount, meta.To[j]) == old(tc(meta.TriesCount, meta.To[j]))
 //@   loop 0 invariant forall k int, j int :: 0 <= k && k < len(newRcpts) && rangeindex < j && j < len(meta.To) ==> newRcpts[k] != meta.To[j]
